@@ -249,7 +249,7 @@ func Spec() *mon.Spec {
 		},
 		Phases: []mon.Phase{
 			{Name: "forced", Quick: len(table), Thorough: 2 * len(table), Run: runForced, Timeout: 150 * time.Second, Batch: 3, GoMaxProcs: 2},
-			{Name: "random", Quick: 90, Thorough: 800, Run: runRandom, Timeout: 150 * time.Second, Batch: 4, GoMaxProcs: 2},
+			{Name: "random", Quick: 60, Thorough: 800, Run: runRandom, Timeout: 150 * time.Second, Batch: 4, GoMaxProcs: 2},
 		},
 		// Floors are ≤ 1/3 of what the quick tier reaches; none of them depends
 		// on a known defect being present.
